@@ -62,14 +62,20 @@ def validated_instances(obj):
     return [(x, any(x is y for y in b)) for x in a]
 
 
+def _stable_key(inst):
+    """content key of an instance (primitive attributes only): the order of first validation follows set iteration for
+    images (hash = id: differs from build to build), so `nth` must not depend on it"""
+    def prim(v):
+        return v is None or isinstance(v, (str, int, float, bool)) or \
+            (isinstance(v, (list, tuple)) and all(prim(x) for x in v)) or \
+            (isinstance(v, dict) and all(isinstance(k, str) and prim(x) for k, x in v.items()))
+    return json.dumps(dict((k, v) for k, v in vars(inst).items() if prim(v)), sort_keys=True, default=str)
+
+
 def nth_instance(obj, cls, nth):
-    k = 0
-    for inst, persistent in validated_instances(obj):
-        if clsname(inst) == cls:
-            if k == nth:
-                return inst, persistent
-            k += 1
-    return None, False
+    same = [(inst, persistent) for inst, persistent in validated_instances(obj) if clsname(inst) == cls]
+    same.sort(key=lambda ip: _stable_key(ip[0]))          # stable: ties keep the order of first validation
+    return same[nth] if nth < len(same) else (None, False)
 
 
 PAYLOAD_FAULTS = {
@@ -78,7 +84,7 @@ PAYLOAD_FAULTS = {
     "modules": lambda o: [m for v in o.modules.values() for a in v.values() for m in a.values()][0]["rpms"].append(set(["x"])),
     "extra_files": lambda o: o.add("Server", "x86_64", "Server/x86_64/os/EULA-set", set([1, 2]), {"md5": "x"}),
     "composeinfo": lambda o: [v for v in o.variants.variants.values()][0].paths.os_tree.__setitem__(sorted([v for v in o.variants.variants.values()][0].arches)[0], set(["x"])),
-    "images": lambda o: [i for v in o.images.values() for s in v.values() for i in s][0].checksums.__setitem__("sha256", set(["x"])),
+    "images": lambda o: sorted((i for v in o.images.values() for s in v.values() for i in s), key=lambda i: i.path)[0].checksums.__setitem__("sha256", set(["x"])),
 }
 
 
